@@ -19,6 +19,12 @@ func init() {
 	R("github.com/cosmos/cosmos-sdk/codec/types.NewInterfaceRegistry", func(it *Interp, fn *ssa.Function, a []Value) Value {
 		return IfaceV{T: tyOpaque, V: OpaqueV{Why: "interface registry"}}
 	})
+	// textual rendering of coins (log lines, event attributes): formatting, never inspected
+	for _, n := range []string{"Coins", "Coin", "DecCoins", "DecCoin"} {
+		R("("+sdkTypes+"."+n+").String", func(it *Interp, fn *ssa.Function, a []Value) Value {
+			return OpaqueV{Why: "coin text"}
+		})
+	}
 	R("github.com/cosmos/cosmos-sdk/codec.NewProtoCodec", func(it *Interp, fn *ssa.Function, a []Value) Value {
 		return OpaqueV{Why: "proto codec"}
 	})
